@@ -5,9 +5,15 @@
        Blast (zero forcing / MMSE), MRC, MRT, SVDMimo, GMDMimo, Alamouti
    as a small machine with one action per public call:
 
-       idle --SetChannel--> chan --Encode(d)--> enc --Transmit--> rx --Decode(q)--> dec
+       idle --SetChannel--> chan --Encode(d)--> enc --Transmit--> rx --(SetNoiseVar(a) | Decode)*--> dec
                              |--Filters--> flt          (receive filters, post-processing SINR)
                              |--EncodeBadLength--> bad  (block length not a multiple of Nt)
+
+   The receiver is a HISTORY on one object: after Transmit every interleaving of
+   set_noise_var(None | 0 | 1/q) and decode() up to HistLen steps is explored (all orders; the
+   last step is a decode).  The machine carries `cache`, the noise setting the receive filter in
+   use was computed for (the current code recomputes the filter in every decode, i.e. the cache is
+   always empty); `FilterFresh` demands that every decode uses the filter of the CURRENT setting.
 
    Everything is exact.  Channels are Gaussian-integer matrices drawn by the in-spec LCG from
    a small alphabet (so the run is reproducible from `Seed`), data blocks are drawn from
@@ -30,10 +36,18 @@
    values, and - for Nt = 3 - a singular value equal to the geometric mean of all three
    (a tie inside the geometric mean decomposition).
 
+   Large channels (Nt >= 4; SVDMimo / GMDMimo only, relation-only): monomial matrices
+   P diag(profile) with a seeded singular-value profile, the same times a unit upper-triangular
+   Gaussian-integer mix, and generic alphabet matrices; full column rank is established by an
+   elimination modulo the prime 32749 (i -> 15645) on the top Nt x Nt block, tall channels get
+   extra alphabet rows.
+
    Named deviations (fields of Dev) switch single steps to what the code does / did:
      SvdNeedsSquare           SVDMimo.decode raises for Nr > Nt (full SVD, diag(1/S) U^H shape)
      SinrCoherentInterference calc_post_processing_linear_SINRs adds the interfering streams
                               coherently ( |sum e_kj|^2 instead of sum |e_kj|^2 )
+     NvNoneKeepsFilter        (plausible regression) a cached receive filter survives
+                              set_noise_var(None)
    With all flags FALSE every invariant below holds.                                        *)
 EXTENDS Integers, Sequences, FiniteSets, TLC, Emit, CMat, BigNat
 
@@ -46,11 +60,14 @@ CONSTANTS Schemes,   \* subset of {"blast","mrc","mrt","svd","gmd","alamouti"}
           Syms,      \* data alphabet: sequence of <<re, im>>
           NData,     \* data blocks per channel
           Qs,        \* Qs[nt] = sequence of inverse noise variances q (sigma^2 = 1/q), increasing
-          DecQs,     \* DecQs[nt] = set of q used by Decode for blast/mrc (0 = zero forcing)
+          DecQs,     \* DecQs[nt] = sequence of q > 0 offered to set_noise_var for blast/mrc
+          HistEvery, \* channels with k % HistEvery = 0 get receiver histories of length HistDeep (others 2)
+          HistDeep,
+          Vanish,    \* sequence of exponents e: noise variances 10^-e along which MMSE -> ZF is followed (rel)
           Dev        \* [name |-> BOOLEAN]
 
-VARIABLES stage, cs, x, tx, rx, q, out, flt
-vars == <<stage, cs, x, tx, rx, q, out, flt>>
+VARIABLES stage, cs, x, tx, rx, q, out, flt, hist, decs, cache
+vars == <<stage, cs, x, tx, rx, q, out, flt, hist, decs, cache>>
 None == <<>>
 
 (* TLC builds [i \in S |-> e] lazily and re-evaluates e at every application; matrices that are
@@ -75,7 +92,7 @@ Fam(sch) == CASE sch \in {"blast", "svd", "gmd"} -> 1
 ShapeOK(sch, nr, nt) == CASE sch = "alamouti" -> nt = 2
                           [] sch = "mrt"      -> nr = 1
                           [] sch = "mrc"      -> nt = 1
-                          [] sch = "blast"    -> nr >= nt /\ (nr <= 3 \/ nt <= 2)   \* 32-bit bound of the exact filters
+                          [] sch = "blast"    -> nr >= nt /\ nt <= 3 /\ (nr <= 3 \/ nt <= 2)   \* 32-bit bound of the exact filters
                           [] OTHER            -> nr >= nt
 
 Ints(H) == Eager(MFromInts(H))
@@ -103,7 +120,51 @@ GoodMimo(H) == LET Hm == Ints(H)  Gm == Gram(H)
                    /\ DistinctSingular(Gm)
                    /\ NoGeoMeanTie(Gm)
 
-ValidFor(sch, H) == CASE sch \in {"blast", "svd", "gmd"} -> GoodMimo(H)
+(* Large channels.  Rank is decided modulo the prime PP: a + b i -> a + RI b with RI^2 = -1 (mod PP) is a
+   ring homomorphism, so a non-zero determinant modulo PP proves a non-zero determinant.  The
+   elimination is division free (cross multiplication); PP^2 < 2^30.                            *)
+PP == 32749
+RI == 15645
+ModP(h) == (h[1] + RI * h[2]) % PP
+RECURSIVE NonSingP(_)
+NonSingP(M) ==
+    LET n == Len(M)
+        rows == {i \in 1..n : M[i][1] # 0}
+    IN  IF rows = {} THEN FALSE
+        ELSE IF n = 1 THEN TRUE
+        ELSE LET pr == CHOOSE i \in rows : \A m \in rows : i <= m
+                 Row(i) == IF i = 1 THEN M[pr] ELSE IF i = pr THEN M[1] ELSE M[i]
+             IN  NonSingP(Eager([i \in 1..(n - 1) |-> [j \in 1..(n - 1) |->
+                     (Row(1)[1] * Row(i + 1)[j + 1] - Row(i + 1)[1] * Row(1)[j + 1]) % PP]]))
+TopNonSingular(H) == LET n == Len(H[1]) IN NonSingP(Eager([i \in 1..n |-> [j \in 1..n |-> ModP(H[i][j])]]))
+
+IntsOf(M) == [i \in 1..MRows(M) |-> [j \in 1..MCols(M) |-> <<M[i][j][1], M[i][j][2]>>]]
+Units == <<<<1, 0>>, <<-1, 0>>, <<0, 1>>, <<0, -1>>>>
+\* rank of key i among the keys (ties by index): a permutation of 1..Len(ys)
+RankOf(ys, i) == 1 + Cardinality({m \in 1..Len(ys) : ys[m] < ys[i] \/ (ys[m] = ys[i] /\ m < i)})
+BigChannel(nr, nt, k, s) ==
+    LET kind == k % 3
+        ys   == TLCEval(LcgSeq(s, 3 * nt + nt * nt + nr * nt))
+        prof == [j \in 1..nt |-> 1 + (Mix(ys[j]) % 12)]                       \* singular-value profile
+        ph   == [j \in 1..nt |-> Pick(Units, ys[nt + j])]
+        keys == [j \in 1..nt |-> ys[2 * nt + j]]
+        Mono == Eager([i \in 1..nt |-> [j \in 1..nt |->
+                    IF RankOf(keys, j) = i THEN <<prof[j] * ph[j][1], prof[j] * ph[j][2]>> ELSE <<0, 0>>]])
+        Mixm == Eager([i \in 1..nt |-> [j \in 1..nt |->
+                    IF i = j THEN <<1, 0>> ELSE IF i > j THEN <<0, 0>> ELSE Pick(Alpha, ys[3 * nt + (i - 1) * nt + j])]])
+        Gen  == [i \in 1..nt |-> [j \in 1..nt |-> Pick(Alpha, ys[3 * nt + (i - 1) * nt + j])]]
+        Top  == CASE kind = 0 -> Mono
+                  [] kind = 1 -> Gen
+                  [] OTHER    -> IntsOf(Eager(MMul(Ints(Mono), Ints(Mixm))))
+    IN  Eager([i \in 1..nr |-> [j \in 1..nt |->
+            IF i <= nt THEN Top[i][j] ELSE Pick(Alpha, ys[3 * nt + nt * nt + (i - 1) * nt + j])]])
+RECURSIVE PickBig(_, _, _, _, _)
+PickBig(nr, nt, k, s, tries) ==
+    LET H == BigChannel(nr, nt, k, s)
+    IN  IF tries = 0 \/ TopNonSingular(H) THEN H ELSE PickBig(nr, nt, k, LcgIter(s, 7), tries - 1)
+
+ValidFor(sch, H) == CASE sch \in {"svd", "gmd"} /\ Len(H[1]) >= 4 -> TopNonSingular(H)
+                      [] sch \in {"blast", "svd", "gmd"} -> GoodMimo(H)
                       [] sch = "mrt"      -> HasComplex(H)                    \* Pyth has no zero
                       [] sch = "mrc"      -> Frob2Int(H) # 0 /\ (Len(H) > 1 => HasComplex(H))
                       [] OTHER            -> Frob2Int(H) # 0 /\ HasComplex(H) /\ H[1][1] # H[1][2]
@@ -116,6 +177,7 @@ PickChan(sch, alpha, nr, nt, s, tries) ==
         ELSE PickChan(sch, alpha, nr, nt, ys[nr * nt], tries - 1)
 
 ChannelFor(sch, nr, nt, k) ==
+    IF sch \in {"svd", "gmd"} /\ nt >= 4 THEN PickBig(nr, nt, k, Start((((k * 16 + nr) * 16 + nt) * 5) + 3), 20) ELSE
     PickChan(sch, IF sch = "mrt" THEN Pyth ELSE Alpha, nr, nt,
              Start((((k * 5 + nr) * 4 + nt) * 5) + Fam(sch)), 40)
 
@@ -198,7 +260,6 @@ DecodeOf(c, r, v, qv) ==
 RxScale2(c) == CASE c.sch \in {"blast", "mrc", "svd", "gmd", "mrt"} -> <<c.nt, 1>>  [] OTHER -> <<2, 1>>
 
 (* ------------------------------ filters and SINR ---------------------------------------- *)
-IntsOf(M) == [i \in 1..MRows(M) |-> [j \in 1..MCols(M) |-> <<M[i][j][1], M[i][j][2]>>]]
 BAbs2(g)  == BAdd(BSq(g[1]), BSq(g[2]))                                   \* |g|^2, g Gaussian integer
 BSumSq(M) == BSumSeq([n \in 1..(MRows(M) * MCols(M)) |-> BAbs2(M[((n - 1) \div MCols(M)) + 1][((n - 1) % MCols(M)) + 1])])
 BRowSq(M, k) == BSumSeq([j \in 1..MCols(M) |-> BAbs2(M[k][j])])
@@ -217,6 +278,8 @@ BlastFilters(c) ==
     LET Hm == Ints(c.H)  HH == Eager(MHerm(Hm))  Gm == Eager(MMul(HH, Hm))
         Z  == ZfOf(Hm)
         Ez == Eager(MMul(Z.num, Hm))
+        A2 == BSumSq(Eager(MAdj(Gm)))                     \* ||G^-1||_F^2 = A2 / den_z^2
+        Z2 == BSumSq(Z.num)                               \* ||ZF||_F^2   = Z2 / den_z^2
         PerQ(qv) ==
             LET F  == MmseOf(Hm, qv)
                 Dn == Eager(MSub(MScale(G(Z.den, 0), F.num), MScale(G(F.den, 0), Z.num)))   \* (MMSE - ZF) den_m den_z
@@ -224,6 +287,8 @@ BlastFilters(c) ==
             IN  [q |-> qv, num |-> IntsOf(F.num), den |-> F.den,
                  defOK |-> MMul(F.a, F.num) = MScale(G(qv * F.den, 0), HH),           \* (G + I/q) MMSE = H^H
                  S |-> BSumSq(Dn), den2 |-> BSq(F.den),
+                 \* ||MMSE - ZF||_F <= (1/q) ||G^-1||_F ||ZF||_F :   S q^2 den_z^2 <= A2 Z2 den_m^2
+                 bndOK |-> ~BLt(BMul(BMul(A2, Z2), BSq(F.den)), BMul(BMul(BSumSq(Dn), BSq(qv)), BSq(Z.den))),
                  sinrZf  |-> [k \in 1..c.nt |-> SinrB(qv, c.nt, Ez, Z.num, k, FALSE)],
                  sinrMm  |-> [k \in 1..c.nt |-> SinrB(qv, c.nt, En, F.num, k, FALSE)],
                  sinrCoh |-> [k \in 1..c.nt |-> SinrB(qv, c.nt, En, F.num, k, TRUE)],       \* as-is prediction
@@ -233,6 +298,8 @@ BlastFilters(c) ==
          zf |-> [num |-> IntsOf(Z.num), den |-> Z.den],
          zfLeft |-> (Ez = MScale(G(Z.den, 0), MIdent(c.nt))),                         \* ZF H = I
          zfDef  |-> (MMul(Gm, Z.num) = MScale(G(Z.den, 0), HH)),                      \* (H^H H) ZF = H^H
+         ginv2 |-> [num |-> A2, den |-> BSq(Z.den)], zf2 |-> [num |-> Z2, den |-> BSq(Z.den)],
+         vanish |-> Vanish, req |-> <<"MmseWithinBoundOfZf">>,
          mm |-> [i \in 1..Len(qs) |-> PerQ(qs[i])]]
 
 \* MRT: equivalent channel g h W = 1, noise amplified by g^2 = Nt / (sum |h_k|)^2
@@ -246,7 +313,9 @@ AlaFilters(c) == LET f == Frob2Int(c.H)  qs == Qs[2]
                       sinr |-> [i \in 1..Len(qs) |-> [q |-> qs[i], v |-> RNorm(qs[i] * f, 2)]]]
 
 (* ------------------------------ the machine --------------------------------------------- *)
-Init == stage = "idle" /\ cs = None /\ x = None /\ tx = None /\ rx = None /\ q = 0 /\ out = None /\ flt = None
+NoCache == -9
+Init == /\ stage = "idle" /\ cs = None /\ x = None /\ tx = None /\ rx = None /\ q = 0 /\ out = None /\ flt = None
+        /\ hist = <<>> /\ decs = <<>> /\ cache = NoCache
 
 SetChannel(sch, nr, nt, k) ==
     /\ stage = "idle"
@@ -255,7 +324,7 @@ SetChannel(sch, nr, nt, k) ==
        IN  /\ ValidFor(sch, H)
            /\ cs' = [sch |-> sch, nr |-> nr, nt |-> nt, k |-> k, H |-> H, form |-> FormFor(sch, nr, nt, k)]
     /\ stage' = "chan"
-    /\ UNCHANGED <<x, tx, rx, q, out, flt>>
+    /\ UNCHANGED <<x, tx, rx, q, out, flt, hist, decs, cache>>
 
 Encode(d) ==
     /\ stage = "chan"
@@ -264,21 +333,49 @@ Encode(d) ==
            /\ x' = v
            /\ tx' = EncodeOf(cs, Vec(v))
     /\ stage' = "enc"
-    /\ UNCHANGED <<cs, rx, q, out, flt>>
+    /\ UNCHANGED <<cs, rx, q, out, flt, hist, decs, cache>>
 
+\* noise settings of the receiver: 0 = zero forcing, q > 0 = MMSE with sigma^2 = 1/q
+DecSeq(c)  == IF c.sch \in {"blast", "mrc"} THEN <<0>> \o DecQs[c.nt] ELSE <<0>>
+\* arguments of set_noise_var: -1 = None, 0 = 0.0, q > 0 = 1/q
+NvArgs(c)  == {-1, 0} \cup {DecQs[c.nt][i] : i \in 1..Len(DecQs[c.nt])}
+NvAll      == {-1, 0} \cup UNION {{DecQs[n][i] : i \in 1..Len(DecQs[n])} : n \in DOMAIN DecQs}
+HistLen(c) == IF c.sch \in {"blast", "mrc"} /\ c.k % HistEvery = 0 THEN HistDeep ELSE 2
+OutFor(qq) == LET i == CHOOSE i \in 1..Len(decs) : decs[i].q = qq IN decs[i].out
+
+\* the channel output; what a decode must return for every noise setting is fixed here (a pure function
+\* of channel, data and setting), the history below only selects
 Transmit ==
     /\ stage = "enc"
-    /\ rx' = IF tx.kind = "exact" THEN Exact(MMul(Ints(cs.H), tx.m), tx.s2) ELSE Rel
-    /\ stage' = "rx"
-    /\ UNCHANGED <<cs, x, tx, q, out, flt>>
+    /\ LET r  == IF tx.kind = "exact" THEN Exact(Eager(MMul(Ints(cs.H), tx.m)), tx.s2) ELSE Rel
+           ds == DecSeq(cs)
+       IN  /\ rx' = r
+           /\ decs' = [i \in 1..Len(ds) |-> [q |-> ds[i], out |-> DecodeOf(cs, r, Vec(x), ds[i])]]
+    /\ stage' = "rx" /\ hist' = <<>> /\ q' = 0 /\ cache' = NoCache
+    /\ UNCHANGED <<cs, x, tx, out, flt>>
 
-Decode(qv) ==
-    /\ stage = "rx"
-    /\ qv = 0 \/ (cs.sch \in {"blast", "mrc"} /\ qv \in DecQs[cs.nt])
-    /\ q' = qv
-    /\ out' = DecodeOf(cs, rx, Vec(x), qv)
+\* set_noise_var(None | 0.0 | 1/a) on the object that has decoded before (or not)
+SetNoiseVar(a) ==
+    /\ stage \in {"rx", "dec"}
+    /\ cs.sch \in {"blast", "mrc"}
+    /\ a \in NvArgs(cs)
+    /\ Len(hist) < HistLen(cs) - 1                                  \* a history ends with a decode
+    /\ q' = IF a <= 0 THEN 0 ELSE a
+    /\ cache' = IF a = -1 /\ Dev.NvNoneKeepsFilter THEN cache ELSE NoCache
+    /\ hist' = Append(hist, [a |-> a, q |-> q'])
+    /\ stage' = "rx"
+    /\ UNCHANGED <<cs, x, tx, rx, out, flt, decs>>
+
+\* decode(channel output) with the receive filter in use
+Decode ==
+    /\ stage \in {"rx", "dec"}
+    /\ Len(hist) < HistLen(cs)
+    /\ LET used == IF cache = NoCache THEN q ELSE cache
+       IN  /\ out' = OutFor(used)
+           /\ cache' = used
+    /\ hist' = Append(hist, [a |-> -2, q |-> q])
     /\ stage' = "dec"
-    /\ UNCHANGED <<cs, x, tx, rx, flt>>
+    /\ UNCHANGED <<cs, x, tx, rx, q, flt, decs>>
 
 Filters ==
     /\ stage = "chan"
@@ -287,7 +384,7 @@ Filters ==
                 [] cs.sch = "alamouti" -> AlaFilters(cs)
                 [] OTHER -> BlastFilters(cs)
     /\ stage' = "flt"
-    /\ UNCHANGED <<cs, x, tx, rx, q, out>>
+    /\ UNCHANGED <<cs, x, tx, rx, q, out, hist, decs, cache>>
 
 \* encode() of the multi-layer schemes rejects blocks whose length is not a multiple of Nt
 EncodeBadLength ==
@@ -296,18 +393,21 @@ EncodeBadLength ==
     /\ x' = PickData(2 * cs.nt + 1, Start(3 + cs.k), 0)
     /\ out' = [kind |-> "raised", v |-> None]
     /\ stage' = "bad"
-    /\ UNCHANGED <<cs, tx, rx, q, flt>>
+    /\ UNCHANGED <<cs, tx, rx, q, flt, hist, decs, cache>>
 
 Next == \/ \E sch \in Schemes, sh \in Shapes, k \in KLo..KHi : SetChannel(sch, sh[1], sh[2], k)
         \/ \E d \in 1..NData : Encode(d)
         \/ Transmit
-        \/ \E qv \in {0} \cup UNION {DecQs[n] : n \in DOMAIN DecQs} : Decode(qv)
+        \/ \E a \in NvAll : SetNoiseVar(a)
+        \/ Decode
         \/ Filters
         \/ EncodeBadLength
 
 (* ------------------------------ the property -------------------------------------------- *)
 \* decoding the noise-free channel output of the encoded data returns the data exactly
 RoundTrip == (stage = "dec" /\ q = 0) => (out.kind # "raised" /\ out.v = Vec(x))
+\* whatever the receiver was configured with before: a decode uses the filter of the current setting
+FilterFresh == stage = "dec" => (cache = q /\ out = OutFor(q))
 \* transmitter and receiver scales cancel
 ScalesCancel == (stage = "dec" /\ tx.kind = "exact") => RMul(RxScale2(cs), rx.s2) = ROne
 \* average transmitted energy per channel use = mean symbol energy
@@ -333,6 +433,11 @@ MmseTendsToZf ==
         /\ \A i \in 1..Len(flt.mm) : ~BIsZero(flt.mm[i].S)
         /\ \A i \in 1..(Len(flt.mm) - 1) :
                BLt(BMul(flt.mm[i + 1].S, flt.mm[i].den2), BMul(flt.mm[i].S, flt.mm[i + 1].den2))
+\* the quantitative form of "tends to": ||MMSE(s) - ZF||_F <= s ||(H^H H)^-1||_F ||ZF||_F for every s > 0
+\* (from MMSE - ZF = -s (G + s I)^-1 ZF); a theorem of the definitions, checked here on the enumerated s and
+\* handed to the harness as the relation it follows down to s = 10^-16 (flt.vanish)
+MmseBound ==
+    (stage = "flt" /\ flt.kind = "blast") => \A i \in 1..Len(flt.mm) : flt.mm[i].bndOK
 \* MRT: the co-phased sum is the sum of the magnitudes (real, positive)
 MrtCophased  == (stage = "flt" /\ flt.kind = "mrt") => flt.coph = G(flt.gain, 0)
 \* the SINR the code reports is the first-principles one (independent streams)
@@ -350,9 +455,9 @@ BadLengthRaises == stage = "bad" => (out.kind = "raised" /\ Len(x) % cs.nt # 0)
 
 (* ------------------------------ emission ------------------------------------------------ *)
 Emit ==
-    IF stage' = "dec" THEN
+    IF stage' = "dec" /\ Len(hist') = HistLen(cs') THEN
         EmitCase([op |-> "link", sch |-> cs'.sch, nr |-> cs'.nr, nt |-> cs'.nt, k |-> cs'.k, form |-> cs'.form,
-                  H |-> cs'.H, x |-> x', layers |-> Layers(cs'), tx |-> tx', rx |-> rx', q |-> q', out |-> out',
+                  H |-> cs'.H, x |-> x', layers |-> Layers(cs'), tx |-> tx', rx |-> rx', steps |-> hist', decs |-> decs',
                   energy |-> RDiv(Energy(Vec(x')), <<Len(x'), 1>>),
                   req |-> IF tx'.kind = "rel" THEN <<"DecodeEqualsData", "EnergyPreserved">> ELSE <<>>])
     ELSE IF stage' = "flt" THEN
